@@ -3,6 +3,7 @@ module verifharness
 go 1.23.0
 
 require (
+	github.com/containerd/log v0.1.0
 	github.com/klauspost/compress v1.18.2
 	github.com/moby/go-archive v0.0.0
 	github.com/moby/patternmatcher v0.6.0
@@ -12,7 +13,6 @@ require (
 )
 
 require (
-	github.com/containerd/log v0.1.0 // indirect
 	github.com/moby/sys/mount v0.3.4 // indirect
 	github.com/moby/sys/mountinfo v0.7.2 // indirect
 	github.com/moby/sys/sequential v0.6.0 // indirect
